@@ -35,9 +35,13 @@ EndsSwap == LET v == OneHopReverse(o) IN
 \* every query produces a value (no overflow)
 ExpiryTotal == OneHopExpiry(o).ok
 
+\* the view and the model fill the second hop field identically
+SetSecondAgree == \A adv \in BOOLEAN : OneHopSetSecondView(o, 7, "k2", adv) = OneHopSetSecondModel(o, 7, "k2", adv)
+
 Cell(q) == LET v == OneHopReverse(q) IN
   [cd |-> q.inf.cd, ts |-> q.inf.ts, in1 |-> q.h1.in, in2 |-> q.h2.in, e1 |-> q.h1.exp, e2 |-> q.h2.exp,
    rev |-> [ok |-> v.ok, cd |-> v.o.inf.cd, first |-> v.o.h1.id],
+   ssh |-> [exp |-> OneHopSetSecondView(q, 7, "k2", FALSE).h2.exp, in |-> 7, eg |-> 0],
    exp |-> OneHopExpiry(q), fe |-> OneHopFirstEgress(q), li |-> OneHopLastIngress(q)]
 Emit == (GEN /\ n = 0) => PrintT(<<"OHCELL", ToJson(Cell(o))>>)
 =============================================================================
